@@ -14,6 +14,9 @@ from pathlib import Path
 
 VERIF = Path(__file__).resolve().parent.parent
 SEEDED = VERIF / "seeded"
+# seeded changes that stopped being defects because a later `fix:` commit removed the mechanism they relied on
+OBSOLETE = {"C09-2": "relied on the shallow temporaries of a list swap; since b5d87be (__redu_list owns its buffer) the temporaries are deep "
+                     "copies and the change is harmless: its own demonstration passes with it"}
 EXTRA = {"C14-2": ["C06"], "C11-2": ["C10"], "C15-2": ["C01"]}   # other checks that are expected to notice as well
 PY = "/venv/bin/python"
 
@@ -90,11 +93,13 @@ def main() -> int:
             env = dict(os.environ); env.pop("REDUINO_VERIF", None)
             t = sh([PY, "-m", "pytest", "-q", "-p", "no:cacheprovider"], cwd=wt, env=env)
             m = re.search(r"\d+ passed[^\n]*|\d+ failed[^\n]*", t.stdout)
-            tests = m.group(0) if m else (t.stdout.strip().splitlines() or ["?"])[-1]
+            tests = m.group(0) if m else f"pytest exit {t.returncode}"
             r1 = demo(wt, work)
             sh(["git", "-C", str(wt), "checkout", "-q", "--", "."]); sh(["git", "-C", str(wt), "clean", "-fdq"])
             meta["ran"] = {"demonstration_on_unchanged_tree_exit": r0, "repository_tests_with_change": tests, "demonstration_with_change_exit": r1}
             meta["confirmed"] = (r0 == 0 and r1 != 0 and t.returncode == 0)
+            if sid in OBSOLETE and not meta["confirmed"]:
+                meta["obsolete"] = OBSOLETE[sid]
             checks = {}
             sh(["git", "-C", "/repo", "apply", str(d / "patch.diff")])
             try:
@@ -115,11 +120,11 @@ def main() -> int:
             meta["checks_with_change_applied"] = checks
             meta["caught_by"] = sorted(c for c, v in checks.items() if v["exit"] == 1 and v["violation_lines"] > 0)
             meta["caught"] = prop in meta["caught_by"]
-            if not (meta["confirmed"] and meta["caught"]):
+            if not (meta["confirmed"] and meta["caught"]) and "obsolete" not in meta:
                 bad += 1
             (d / "meta.json").write_text(json.dumps(meta, indent=1) + "\n")
             rows.append(meta)
-            print(sid, "confirmed" if meta["confirmed"] else "NOT-CONFIRMED", "caught by " + ",".join(meta["caught_by"]) if meta["caught_by"] else "MISSED", flush=True)
+            print(sid, "confirmed" if meta["confirmed"] else ("OBSOLETE" if "obsolete" in meta else "NOT-CONFIRMED"), "caught by " + ",".join(meta["caught_by"]) if meta["caught_by"] else "MISSED", flush=True)
             shutil.rmtree(work, ignore_errors=True)
             for o in tmp.glob("out-*"):
                 shutil.rmtree(o, ignore_errors=True)
@@ -135,7 +140,8 @@ def main() -> int:
         for m in rows:
             c = m.get("checks_with_change_applied", {})
             first = (c.get(m["property"], {}).get("first") or m.get("error", "")).replace("|", "\\|")[:160]
-            L.append(f"| {m['id']} | {'yes' if m.get('confirmed') else 'NO'} | {', '.join(m.get('caught_by', [])) or 'MISSED'} | {first} |")
+            L.append(f"| {m['id']} | {'yes' if m.get('confirmed') else ('obsolete' if 'obsolete' in m else 'NO')} | "
+                     f"{', '.join(m.get('caught_by', [])) or ('-' if 'obsolete' in m else 'MISSED')} | {(m.get('obsolete') or first)[:160]} |")
         (SEEDED / "MATRIX.md").write_text("\n".join(L) + "\n")
     return 1 if bad else 0
 
